@@ -419,12 +419,24 @@ func (f *Flooder) floodAdvertisementEncrypted(
 		fwdDisplayName = ""
 	}
 
+	// The metric we advertise is the metric of the route at this agent, i.e.
+	// one hop more than the metric we received (receivers add the final hop
+	// themselves). Without this every agent would record metric 1 regardless
+	// of its distance from the origin.
+	fwdRoutes := make([]protocol.Route, len(routes))
+	for i, r := range routes {
+		fwdRoutes[i] = r
+		if r.Metric < ^uint16(0) {
+			fwdRoutes[i].Metric = r.Metric + 1
+		}
+	}
+
 	// Build the advertise payload with extended path
 	adv := &protocol.RouteAdvertise{
 		OriginAgent:       originAgent,
 		OriginDisplayName: fwdDisplayName,
 		Sequence:          sequence,
-		Routes:            routes,
+		Routes:            fwdRoutes,
 		EncPath:           fwdEncPath,
 		SeenBy:            seenBy,
 	}
